@@ -233,11 +233,11 @@ func ruleDistributor(w *World, r *Report, pfx string) {
 		if !ok || ia.X != ssa.Value(col) {
 			return false
 		}
-		cl := classifyCountingLoop(l)
-		return cl.ok && cl.coversAll(col) && (ia.Index == ssa.Value(cl.phi) || isNextOf(ia.Index, cl.phi))
+		iw := w.loopIndexWalk(l, col)
+		return iw.OK && iw.CoversAll
 	}
 	switch {
-	case lc == nil || ls == nil || lc == ls:
+	case lc == nil || ls == nil || lc.Header == ls.Header:
 		bad = "collect and distribute are not two separate loops (every bar must have sent its width before any gets the maximum)"
 	case !elemOf(sel.States[recvStateOn(w, sel, "WC.wsync")].Chan, lc):
 		bad = "the collect loop does not receive from every entry of the column"
@@ -247,45 +247,64 @@ func ruleDistributor(w *World, r *Report, pfx string) {
 		bad = "distribution does not follow collection"
 	}
 	if bad == "" {
-		// the sent value: phi in the collect loop header with edges {0, itself, received value under w > max}
+		// the sent value is the collect loop's running maximum: a header phi starting at 0 whose per-iteration
+		// update is: the received width under (received > max), itself otherwise
 		phi, ok := send.X.(*ssa.Phi)
 		if !ok || phi.Block() != lc.Header {
 			bad = "the value distributed is not the running maximum of the collect loop"
 		} else {
 			for i, e := range phi.Edges {
-				pred := lc.Header.Preds[i]
-				switch {
-				case e == ssa.Value(phi):
-				case !lc.Blocks[pred]:
+				if !lc.Blocks[lc.Header.Preds[i]] {
 					if k, ok := constInt(e); !ok || k != 0 {
 						bad = "the running maximum does not start at 0"
 					}
-				default:
-					ex, ok := e.(*ssa.Extract)
-					if !ok || ex.Tuple != ssa.Value(sel) {
-						bad = "the running maximum is updated with something other than the received width"
-						break
-					}
-					// the edge must come from the true branch of received > max
-					okGuard := false
-					for _, b := range d.Blocks {
-						ifi, ok := b.Instrs[len(b.Instrs)-1].(*ssa.If)
-						if !ok {
-							continue
-						}
-						bin, ok := ifi.Cond.(*ssa.BinOp)
-						if !ok {
-							continue
-						}
-						gt := (bin.Op == token.GTR && bin.X == e && bin.Y == ssa.Value(phi)) || (bin.Op == token.LSS && bin.Y == e && bin.X == ssa.Value(phi))
-						if gt && (b.Succs[0] == pred || b.Succs[0].Dominates(pred)) && len(b.Succs[0].Preds) == 1 {
-							okGuard = true
-						}
-					}
-					if !okGuard {
-						bad = "the received width replaces the running value without the guard received > max (the column would not take the largest width)"
+				}
+			}
+			var body *ssa.BasicBlock
+			for _, sc := range lc.Header.Succs {
+				if lc.Blocks[sc] {
+					body = sc
+				}
+			}
+			recvIdx := recvStateOn(w, sel, "WC.wsync")
+			isRecv := func(v Val) bool {
+				ex, ok := v.V.(*ssa.Extract)
+				return ok && ex.Tuple == ssa.Value(sel) && ex.Index >= 2
+			}
+			isMax := func(v Val) bool { return v.V == ssa.Value(phi) }
+			sawTake, sawKeep := false, false
+			w.enumPaths(d, pathOpts{Start: body, StopAt: func(b *ssa.BasicBlock) bool { return b == lc.Header }}, func(p *Path) {
+				if bad != "" || p.Exit != "stop" || p.armTaken(sel) != recvIdx {
+					return
+				}
+				last := p.Blocks[len(p.Blocks)-1]
+				var nv ssa.Value
+				for i, pr := range lc.Header.Preds {
+					if pr == last {
+						nv = phi.Edges[i]
 					}
 				}
+				if nv == nil {
+					return
+				}
+				v := p.R(Val{nv, p.eng.root, p.EndEnv})
+				switch {
+				case p.hasCmp(-1, token.GTR, isRecv, isMax):
+					sawTake = true
+					if !isRecv(v) {
+						bad = "a received width larger than the running maximum does not replace it"
+					}
+				case p.hasCmp(-1, token.LEQ, isRecv, isMax):
+					sawKeep = true
+					if !isMax(v) {
+						bad = "the running maximum is replaced although the received width is not larger (the column would not take the largest width)"
+					}
+				default:
+					bad = "the running maximum is updated without comparing it with the received width"
+				}
+			})
+			if bad == "" && !(sawTake && sawKeep) {
+				bad = "the collect loop does not keep the maximum of the received widths"
 			}
 		}
 	}
@@ -431,16 +450,19 @@ func ruleSyncTable(w *World, r *Report, pfx string) {
 		r.Unresolved("anchor", "bState.wSyncTable", "not found")
 		return
 	}
-	// one Sync call, in an inner range loop over the group, itself in a range loop over decorGroups
+	// one Sync call (in wSyncTable or a private helper), in a loop over the whole group, inside (or called from) a loop over all groups
 	var syncCall *ssa.Call
-	for _, b := range fn.Blocks {
-		for _, in := range b.Instrs {
-			if c, ok := in.(*ssa.Call); ok && c.Call.IsInvoke() && c.Call.Method.Name() == "Sync" {
-				if syncCall != nil {
-					r.Violated(rule, "bState.wSyncTable", w.instrPos(in), "more than one Sync call site")
-					return
+	var syncFn *ssa.Function
+	for f := range w.unit(fn) {
+		for _, b := range f.Blocks {
+			for _, in := range b.Instrs {
+				if c, ok := in.(*ssa.Call); ok && c.Call.IsInvoke() && c.Call.Method.Name() == "Sync" {
+					if syncCall != nil {
+						r.Violated(rule, "bState.wSyncTable", w.instrPos(in), "more than one Sync call site")
+						return
+					}
+					syncCall, syncFn = c, f
 				}
-				syncCall = c
 			}
 		}
 	}
@@ -448,60 +470,107 @@ func ruleSyncTable(w *World, r *Report, pfx string) {
 		r.Violated(rule, "bState.wSyncTable", w.pos(fn.Pos()), "no call of Synchronizer.Sync: no decorator would ever be width-synchronised")
 		return
 	}
-	loops := naturalLoops(fn)
-	inner := innermostLoop(loops, syncCall.Block())
+	inner := innermostLoop(naturalLoops(syncFn), syncCall.Block())
+	// the instruction of fn that stands for the inner walk: the inner loop's header, or the call of the helper
+	var anchorBlock *ssa.BasicBlock
+	var group ssa.Value // the group walked
+	if syncFn == fn {
+		if inner != nil {
+			anchorBlock = inner.Header
+		}
+	} else {
+		for _, b := range fn.Blocks {
+			for _, in := range b.Instrs {
+				if c, ok := in.(*ssa.Call); ok && c.Call.StaticCallee() == syncFn {
+					anchorBlock = b
+				}
+			}
+		}
+	}
 	var outer *loopInfo
-	for _, l := range loops {
-		if inner != nil && l != inner && l.Blocks[inner.Header] {
-			outer = l
+	if anchorBlock != nil {
+		for _, l := range naturalLoops(fn) {
+			if l.Blocks[anchorBlock] && (inner == nil || syncFn != fn || l.Header != inner.Header) {
+				if outer == nil || len(l.Blocks) < len(outer.Blocks) {
+					outer = l
+				}
+			}
 		}
 	}
 	bad := ""
 	if inner == nil || outer == nil {
-		bad = "the Sync call is not inside a loop over the group nested in a loop over the groups"
+		bad = "the Sync call is not inside a loop over the group nested in (or called from) a loop over the groups"
 	} else {
-		ci, co := classifyCountingLoop(inner), classifyCountingLoop(outer)
-		if !ci.ok || ci.step != 1 || !co.ok || co.step != 1 {
-			bad = "the loops over groups / decorators are not complete ascending range loops"
-		}
-		// outer bound = array length of decorGroups
-		if bad == "" {
-			if k, ok := constInt(co.bound); !ok || k != 2 {
-				bad = "the outer loop does not cover both decorator groups"
+		// inner covers the whole group: the receiver of Sync is group[e(i)] with a full index walk
+		if ld, ok := syncCall.Call.Value.(*ssa.UnOp); ok {
+			if ia, ok := ld.X.(*ssa.IndexAddr); ok {
+				group = ia.X
 			}
 		}
-		// append under ok
+		iwI := indexWalk{}
+		if group != nil {
+			iwI = w.loopIndexWalk(inner, group)
+		}
+		if !iwI.OK || !iwI.CoversAll || !iwI.Ascending {
+			bad = "the decorators of a group are not all visited in order"
+		}
+		// outer covers all groups in order: index walk over decorGroups (array: bound len or its constant length)
+		co := classifyCountingLoop(outer)
+		okOuter := w.loopCoversGroups(outer)
+		if !okOuter {
+			bad = orStr(bad, "the loop over the decorator groups does not cover both groups in order")
+		}
+		// append under ok (either polarity form)
 		nApp := 0
 		for b := range inner.Blocks {
 			for _, in := range b.Instrs {
-				if c, ok := in.(*ssa.Call); ok && isBuiltinCall(&c.Call, "append") {
-					nApp++
-					// dominated by the true branch of the ok result of Sync
-					okGuard := false
-					for _, ref := range *syncCall.Referrers() {
-						ex, isEx := ref.(*ssa.Extract)
-						if !isEx || ex.Index != 1 {
+				c, ok := in.(*ssa.Call)
+				if !ok || !isBuiltinCall(&c.Call, "append") {
+					continue
+				}
+				nApp++
+				okGuard := false
+				for _, ref := range *syncCall.Referrers() {
+					ex, isEx := ref.(*ssa.Extract)
+					if !isEx || ex.Index != 1 {
+						continue
+					}
+					for _, r2 := range *ex.Referrers() {
+						ifi, isIf := r2.(*ssa.If)
+						if !isIf {
 							continue
 						}
-						for _, r2 := range *ex.Referrers() {
-							if ifi, isIf := r2.(*ssa.If); isIf && ifi.Block().Succs[0].Dominates(b) {
-								okGuard = true
+						t := ifi.Block().Succs[0]
+						if (t == b || t.Dominates(b)) && len(t.Preds) == 1 {
+							okGuard = true
+						}
+					}
+					// negated form: if !ok { continue }
+					for _, r2 := range *ex.Referrers() {
+						if un, isUn := r2.(*ssa.UnOp); isUn && un.Op == token.NOT {
+							for _, r3 := range *un.Referrers() {
+								if ifi, isIf := r3.(*ssa.If); isIf {
+									f := ifi.Block().Succs[1]
+									if (f == b || f.Dominates(b)) && len(f.Preds) == 1 {
+										okGuard = true
+									}
+								}
 							}
 						}
 					}
-					if !okGuard {
-						bad = "a channel is appended to the row without the ok result of Sync"
-					}
+				}
+				if !okGuard {
+					bad = orStr(bad, "a channel is appended to the row without the ok result of Sync")
 				}
 			}
 		}
-		if nApp != 1 && bad == "" {
-			bad = fmt.Sprintf("%d appends in the decorator loop", nApp)
+		if nApp != 1 {
+			bad = orStr(bad, fmt.Sprintf("%d appends in the decorator loop", nApp))
 		}
-		// the table store: index = outer induction, value = row[start:], start carried as len(row)
+		// the table store in fn: index = outer induction, value = row[start:], start carried as len(row)
 		nStore := 0
 		for b := range outer.Blocks {
-			if inner.Blocks[b] {
+			if syncFn == fn && inner.Blocks[b] {
 				continue
 			}
 			for _, in := range b.Instrs {
@@ -513,15 +582,18 @@ func ruleSyncTable(w *World, r *Report, pfx string) {
 				if !ok {
 					continue
 				}
-				nStore++
-				if !(ia.Index == ssa.Value(co.phi) || isNextOf(ia.Index, co.phi)) {
-					bad = "the per-group slice is not stored at the group's index"
+				if _, isSlice := st.Val.(*ssa.Slice); !isSlice {
+					continue
 				}
-				sl, ok := st.Val.(*ssa.Slice)
-				if !ok || sl.Low == nil || sl.High != nil {
-					bad = "the per-group slice is not row[start:]"
+				nStore++
+				if !(ia.Index == ssa.Value(co.phi) || (co.phi != nil && isNextOf(ia.Index, co.phi))) {
+					bad = orStr(bad, "the per-group slice is not stored at the group's index")
+				}
+				sl := st.Val.(*ssa.Slice)
+				if sl.Low == nil || sl.High != nil {
+					bad = orStr(bad, "the per-group slice is not row[start:]")
 				} else if lp, ok := sl.Low.(*ssa.Phi); !ok || lp.Block() != outer.Header {
-					bad = "the split point is not carried from the previous group"
+					bad = orStr(bad, "the split point is not carried from the previous group")
 				} else {
 					okLen := false
 					for i, e := range lp.Edges {
@@ -532,13 +604,13 @@ func ruleSyncTable(w *World, r *Report, pfx string) {
 						}
 					}
 					if !okLen {
-						bad = "the split point is not advanced to len(row) after each group"
+						bad = orStr(bad, "the split point is not advanced to len(row) after each group")
 					}
 				}
 			}
 		}
-		if nStore != 1 && bad == "" {
-			bad = "the table is not stored once per group"
+		if nStore != 1 {
+			bad = orStr(bad, "the table is not stored once per group")
 		}
 	}
 	r.Check(bad == "", rule, "bState.wSyncTable", w.pos(fn.Pos()), "both groups, every decorator once in order, split at the group boundary", bad)
@@ -745,13 +817,9 @@ func ruleSyncArm(w *World, r *Report, pfx string) {
 	// the rebuild loop covers every heap element, and per element both table halves are appended column-wise
 	var rebuildLoop *loopInfo
 	rebuildFns := []*ssa.Function{loop}
-	for _, b := range loop.Blocks {
-		for _, in := range b.Instrs {
-			if c, ok := in.(*ssa.Call); ok {
-				if sc := c.Call.StaticCallee(); sc != nil && w.modSet[sc] && sc.Pkg == w.Mpb && sc != wst && sc != syncWidthFn && sc.Signature.Recv() == nil {
-					rebuildFns = append(rebuildFns, sc)
-				}
-			}
+	for f := range w.unit(loop) {
+		if f != loop && f != wst && f != syncWidthFn {
+			rebuildFns = append(rebuildFns, f)
 		}
 	}
 	var allLoops []*loopInfo
@@ -788,9 +856,23 @@ func ruleSyncArm(w *World, r *Report, pfx string) {
 			if _, ok := in.(*ssa.MapUpdate); ok {
 				nUpd++
 			}
+			// or through a helper called once per table half
+			if c, ok := in.(*ssa.Call); ok {
+				if sc := c.Call.StaticCallee(); sc != nil && w.modSet[sc] && sc != wst {
+					for f := range w.unit(sc) {
+						for _, fb := range f.Blocks {
+							for _, fi := range fb.Instrs {
+								if _, ok := fi.(*ssa.MapUpdate); ok {
+									nUpd++
+								}
+							}
+						}
+					}
+				}
+			}
 		}
 	}
-	r.Check(okCover && nUpd == 2, rule, "rebuild loop", w.instrPos(rebuildLoop.Header.Instrs[0]), "ranges over the whole heap; both matrices appended", "the rebuild does not visit every bar of the heap and append both halves of its sync table")
+	r.Check(okCover && nUpd >= 2, rule, "rebuild loop", w.instrPos(rebuildLoop.Header.Instrs[0]), "ranges over the whole heap; both matrices appended", "the rebuild does not visit every bar of the heap and append both halves of its sync table")
 	// syncWidth: one distributor per column (range over the map, one go each)
 	if syncWidthFn != nil {
 		okSW := false
@@ -828,17 +910,7 @@ func ruleDecorAlwaysCalled(w *World, r *Report, pfx string) {
 		r.Unresolved("anchor", "bState.draw", "not found")
 		return
 	}
-	var clo *ssa.Function
-	var decorCall *ssa.Call
-	for _, c := range append([]*ssa.Function{draw}, draw.AnonFuncs...) {
-		for _, b := range c.Blocks {
-			for _, in := range b.Instrs {
-				if call, ok := in.(*ssa.Call); ok && call.Call.IsInvoke() && call.Call.Method.Name() == "Decor" {
-					clo, decorCall = c, call
-				}
-			}
-		}
-	}
+	clo, decorCall := w.drawDecorSite(draw)
 	if decorCall == nil {
 		r.Violated(rule, "draw", w.pos(draw.Pos()), "draw never calls Decorator.Decor")
 		return
@@ -980,6 +1052,70 @@ func drawLoopCoversGroups(w *World, draw, clo *ssa.Function) bool {
 			}
 			k, ok := constInt(sl.High)
 			return ok && k == nGroups
+		}
+	}
+	return false
+}
+
+// drawDecorSite: the function (draw itself, one of its closures, or a private helper) that calls
+// Decorator.Decor for the row being drawn, and the call.
+func (w *World) drawDecorSite(draw *ssa.Function) (*ssa.Function, *ssa.Call) {
+	cands := append([]*ssa.Function{draw}, draw.AnonFuncs...)
+	for f := range w.unit(draw) {
+		if f != draw {
+			cands = append(cands, f)
+		}
+	}
+	for _, c := range cands {
+		for _, b := range c.Blocks {
+			for _, in := range b.Instrs {
+				if call, ok := in.(*ssa.Call); ok && call.Call.IsInvoke() && call.Call.Method.Name() == "Decor" {
+					return c, call
+				}
+			}
+		}
+	}
+	return nil, nil
+}
+
+// loopCoversGroups: an ascending unit-step counting loop whose bound is the number of decorator
+// groups (constant, len of the groups array, or len of a slice of it that reaches its end).
+func (w *World) loopCoversGroups(l *loopInfo) bool {
+	co := classifyCountingLoop(l)
+	nGroups := int64(-1)
+	if st := structOf(w.namedByTypeName(tBState)); st != nil {
+		for i := 0; i < st.NumFields(); i++ {
+			if st.Field(i).Name() == "decorGroups" {
+				if arr, ok := st.Field(i).Type().Underlying().(*types.Array); ok {
+					nGroups = arr.Len()
+				}
+			}
+		}
+	}
+	if !co.ok || co.step != 1 {
+		return false
+	}
+	if k, ok := constInt(co.bound); ok && k == nGroups {
+		return true
+	}
+	if lc, ok := co.bound.(*ssa.Call); ok && isBuiltinCall(&lc.Call, "len") {
+		x := lc.Call.Args[0]
+		if sl, ok := x.(*ssa.Slice); ok {
+			if f, ok := fieldOf(sl.X); ok && f.Name == "decorGroups" {
+				if sl.High == nil {
+					return true
+				}
+				if k, ok := constInt(sl.High); ok && k == nGroups {
+					return true
+				}
+			}
+			return false
+		}
+		if f, ok := fieldOf(x); ok && f.Name == "decorGroups" {
+			return true
+		}
+		if f, ok := loadedField(x); ok && f.Name == "decorGroups" {
+			return true
 		}
 	}
 	return false
